@@ -41,6 +41,15 @@
 #include <unistd.h>
 #include <fcntl.h>
 
+
+#ifdef LIBERASURECODE_VERIF
+/* verification hook (see src/erasurecode.c) */
+extern void (*liberasurecode_verif_yield)(const char *point);
+#define VERIF_YIELD(p) do { if (liberasurecode_verif_yield) liberasurecode_verif_yield(p); } while (0)
+#else
+#define VERIF_YIELD(p) do { } while (0)
+#endif
+
 void print_matrix(int *matrix, int rows, int cols)
 {
   int i, j;
@@ -241,6 +250,7 @@ int get_non_zero_diagonal(int *matrix, int row, int num_rows, int num_cols)
 
 int * make_systematic_matrix(int k, int m)
 {
+  VERIF_YIELD("c_mat");
   int rows = k + m;
   int cols = k;
   int i, j;
@@ -401,6 +411,7 @@ void region_dot_product(char **from_bufs, char *to_buf, int *matrix_row, int num
 
 int liberasurecode_rs_vand_encode(int *generator_matrix, char **data, char **parity, int k, int m, int blocksize)
 {
+  VERIF_YIELD("u_use");
   int i;
   int n = k + m;
 
